@@ -26,11 +26,11 @@ EPS = 1e-9
 def plan(tier):
     if tier == 'thorough':
         return {'shards': 16, 'timeout_s': 1700}
-    return {'shards': 4, 'timeout_s': 280}
+    return {'shards': 8, 'timeout_s': 280}
 
 
 def n_cases(tier):
-    return 20000 if tier == 'thorough' else 250
+    return 20000 if tier == 'thorough' else 600
 
 
 def one_case(rng, tier):
